@@ -397,7 +397,9 @@ Proof.
   revert s. induction l as [|t r IH]; intros s Hg; [exact Hg|]. simpl.
   destruct (dispatch s t) as [s1 ok] eqn:E.
   assert (Hg1 : good s1) by (change s1 with (fst (s1, ok)); rewrite <- E; apply good_dispatch; exact Hg).
-  destruct ok; [apply IH; exact Hg1|exact Hg1].
+  destruct ok; [apply IH; exact Hg1|]. simpl.
+  destruct (heap s1 !! t) as [p|] eqn:Ep; [|exact Hg1].
+  apply good_unallocate; [exact Hg1|]. eapply good_heap_pok; eauto.
 Qed.
 
 Lemma good_ssn_place jr s k tid nid : good s -> good (fst (ssn_place_with eps jr s k tid nid)).
